@@ -119,7 +119,7 @@ def mc_module(workdir, name, cfgs, prop, keep_obs=True):
 
 
 def run_family(prop, name, cfgs, rand_cfg, binary, seed, tier, tlc_workers=3, rand_count=200,
-               env_extra=None, dfs=True):
+               env_extra=None, dfs=True, twosub=False):
     """One scenario family = one TLC run over a batch of scenario cfgs (usually one).
     returns a dict with everything the report needs"""
     if isinstance(cfgs, dict):
@@ -146,14 +146,14 @@ def run_family(prop, name, cfgs, rand_cfg, binary, seed, tier, tlc_workers=3, ra
         for i, b in enumerate(beh):
             c = cfgs[b["ci"] - 1]
             f.write(json.dumps({"id": f"{name}.m{i}", "fam": c["fam"], "cfg": c, "drive": "replay",
-                                "script": b["script"]}) + "\n")
+                                "script": b["script"], "twosub": twosub}) + "\n")
         if dfs:
             for j, c in enumerate(cfgs):
                 f.write(json.dumps({"id": f"{name}.d{j}", "fam": c["fam"], "cfg": c, "drive": "dfs",
-                                    "limit": max(4 * len(beh), 20000)}) + "\n")
+                                    "limit": max(4 * len(beh), 20000), "twosub": twosub}) + "\n")
         if rand_cfg is not None and rand_count > 0:
             f.write(json.dumps({"id": f"{name}.r", "fam": rand_cfg["fam"], "cfg": rand_cfg, "drive": "rand",
-                                "seed": seed, "count": rand_count}) + "\n")
+                                "seed": seed, "count": rand_count, "twosub": twosub}) + "\n")
     tr_file = os.path.join(wd, "traces.ndjson")
     th = time.time()
     run_harness(binary, scen_file, tr_file, env_extra=env_extra)
@@ -168,20 +168,31 @@ def run_family(prop, name, cfgs, rand_cfg, binary, seed, tier, tlc_workers=3, ra
     drift = []
     replayed = dfs_n = rand_n = 0
     dfs_scripts = set()
-    to_judge = {}          # obs_key -> record (only traces the model run has not judged)
-    traces = []
+    judged_keys = set()    # keys written to the judge file (traces the model run has not judged)
+    all_keys = set()
+    ntraces = 0
+    n_not_model = 0
     truncated = False
-    with open(tr_file) as f:
+    jf = os.path.join(wd, "judge.ndjson")
+
+    def trace_key(r):
+        ck = json.dumps(r["cfg"], sort_keys=True)
+        if twosub:
+            # C13 compares real runs with each other: every trace goes to TraceProps
+            return ck, "t" + obs_key(ck, [r["obs"], r.get("proj"), r.get("solo")])
+        return ck, obs_key(ck, r["obs"])
+
+    # pass 1 (streaming): drift, and which traces TLC still has to judge
+    with open(tr_file) as f, open(jf, "w") as jout:
         for line in f:
             r = json.loads(line)
             if r.get("truncated"):
                 truncated = True
                 continue
             rid = str(r["id"])
-            ck = json.dumps(r["cfg"], sort_keys=True)
-            k = obs_key(ck, r["obs"])
-            r["_k"] = k
-            traces.append(r)
+            ck, k = trace_key(r)
+            ntraces += 1
+            all_keys.add(k)
             if rid.startswith(name + ".m"):
                 replayed += 1
                 b = beh[int(rid[len(name) + 2:])]
@@ -198,8 +209,16 @@ def run_family(prop, name, cfgs, rand_cfg, binary, seed, tier, tlc_workers=3, ra
                     drift.append(dict(kind="dfs_obs_differs", id=rid, script=r["script"]))
             else:
                 rand_n += 1
-            if k not in verdict and k not in to_judge:
-                to_judge[k] = r
+            if k not in verdict:
+                n_not_model += 1
+                if k not in judged_keys:
+                    judged_keys.add(k)
+                    jr = {"id": k, "cfg": r["cfg"], "obs": r["obs"]}
+                    if twosub:
+                        jr["obs"] = []      # C13 only compares proj with solo
+                        jr["proj"] = r["proj"]
+                        jr["solo"] = r["solo"]
+                    jout.write(json.dumps(jr) + "\n")
     if dfs and not truncated:
         for sk in model_scripts:
             if sk not in dfs_scripts:
@@ -208,44 +227,47 @@ def run_family(prop, name, cfgs, rand_cfg, binary, seed, tier, tlc_workers=3, ra
                dfs_equals_model=(dfs and not truncated and not any(d["kind"] != "replay_differs" for d in drift)),
                dfs_truncated=truncated)
     # (3) TLC judges every trace of the real code that is not literally a judged model behaviour
-    judged_by_tlc = 0
-    if to_judge:
-        jf = os.path.join(wd, "judge.ndjson")
-        with open(jf, "w") as f:
-            for k, r in to_judge.items():
-                f.write(json.dumps({"id": k, "cfg": r["cfg"], "obs": r["obs"]}) + "\n")
+    if judged_keys:
         viol, st, jdt = tlc.judge(wd, jf, prop, workers=tlc_workers, tag=name)
-        judged_by_tlc = len(to_judge)
         res["judge_s"] = jdt
-        for k in to_judge:
+        for k in judged_keys:
             verdict[k] = []
         for v in viol:
             verdict[v["id"]] = v["w"]
-    res["judged_by_traceprops"] = judged_by_tlc
-    res["judged_as_model_behaviour"] = len(traces) - sum(1 for r in traces if r["_k"] in to_judge)
-    # witnesses per trace of the real code
+    res["judged_by_traceprops"] = len(judged_keys)
+    res["judged_as_model_behaviour"] = ntraces - n_not_model
+    # pass 2 (streaming): collect the traces of the real code that have witnesses
     hits = []
-    for r in traces:
-        w = verdict.get(r["_k"], [])
-        if w:
-            hits.append(dict(id=r["id"], cfg=r["cfg"], script=r["script"], obs=r["obs"], w=w))
-    res["impl_traces"] = len(traces)
-    res["distinct_impl_traces"] = len({r["_k"] for r in traces})
+    sample = None
+    bad_keys = {k for k in all_keys if verdict.get(k)}
+    with open(tr_file) as f:
+        for i, line in enumerate(f):
+            if not bad_keys and sample is not None:
+                break
+            r = json.loads(line)
+            if r.get("truncated"):
+                continue
+            if sample is None and i >= ntraces // 2:
+                sample = dict(script=r["script"], obs=[e for e in r["obs"] if e["k"] != "r"][:40])
+            if bad_keys:
+                _, k = trace_key(r)
+                if k in bad_keys and len(hits) < 2000:
+                    hits.append(dict(id=r["id"], cfg=r["cfg"], script=r["script"], obs=r["obs"], w=verdict[k]))
+    res["impl_traces"] = ntraces
+    res["distinct_impl_traces"] = len(all_keys)
     res["hits"] = hits
     res["model_behaviours_with_witnesses"] = sum(1 for b in beh if b["w"])
-    # samples for the evidence file
-    res["sample"] = dict(script=traces[len(traces) // 2]["script"],
-                         obs=[e for e in traces[len(traces) // 2]["obs"] if e["k"] != "r"][:40]) if traces else None
+    res["sample"] = sample
     res["wall_s"] = time.time() - t0
     if not os.environ.get("VERIF_KEEP_WORK"):
         shutil.rmtree(wd, ignore_errors=True)
     return res
 
 
-def run_families(prop, fams, binary, seed, tier, jobs=5, rand_count=200, env_extra=None):
+def run_families(prop, fams, binary, seed, tier, jobs=5, rand_count=200, env_extra=None, twosub=False):
     results = []
     with cf.ThreadPoolExecutor(max_workers=jobs) as ex:
-        futs = {ex.submit(run_family, prop, n, c, r, binary, seed, tier, 3, rand_count, env_extra): n
+        futs = {ex.submit(run_family, prop, n, c, r, binary, seed, tier, 3, rand_count, env_extra, True, twosub): n
                 for (n, c, r) in fams}
         for fu in cf.as_completed(futs):
             results.append(fu.result())
